@@ -19,7 +19,7 @@ CHUNK = 4
 def bounds(tier):
     return {'wavelets': len(dwt.wavelets(tier)), 'modes': dwt.MODES,
             '1d_sizes': '2..min(2L+4,44)' if tier == 'quick' else '2..2L+4',
-            '2d_sizes': 'grid [2..8]^2 (L<=8) / regime cross' if tier == 'quick' else 'grid [2..14]^2 (L<=12) / crosses',
+            '2d_sizes': 'grid [2..8]^2 (L<=8) / regime cross' if tier == 'quick' else 'grid [2..14]^2 (L<=8) / crosses',
             'J': '1..closure+1, cap %d' % jcap(tier)}
 
 
@@ -37,7 +37,7 @@ def plan(tier):
                 items.append({'dim': 1, 'wave': w, 'mode': mode, 'ns': ns[i:i + 8], 'jcap': jcap(tier)})
             for (h, ww) in dwt.sizes_2d(L, tier):
                 items.append({'dim': 2, 'wave': w, 'mode': mode, 'h': h, 'w': ww,
-                              'jcap': jcap(tier) if L <= 12 else min(jcap(tier), 4)})
+                              'jcap': min(jcap(tier), 8) if L <= 12 else min(jcap(tier), 4)})
     return items
 
 
